@@ -39,7 +39,8 @@ META = {
              " Round 12: http_faults with per-shard layouts, outdated legacy files and the statuses 400/401/410/429/502."
              " Round 13: write_handled_close - the caller handles the reported failure of one chunk, stores the others and closes; accepted chunks must be there, the refused one absent, complete or detectably invalid."
              " http_faults: after a reported failure the same accessor object is asked again without a fault (the stored bytes or an I/O error)."
-             " Round 17: store_file_no_overwrite (a second, non-overwriting store of info / meta.json)."),
+             " Round 17: store_file_no_overwrite (a second, non-overwriting store of info / meta.json)."
+             " Round 18: chunk coordinates as tuple / list / NumPy array."),
     "trusted_base": ["vlib/faultfs.py: crash model = process killed between "
                      "(or inside) application-level write calls, earlier "
                      "closed files intact; self-checked on every scenario by "
@@ -226,6 +227,16 @@ class Scenario:
         acc = ds.open_accessor(acc_kind(self.sc), path)
         return precomputed_io.get_IO_for_existing_dataset(acc)
 
+    def rep(self, cc):
+        """The chunk coordinates as the caller happens to hold them: a tuple,
+        a list, or a row of a NumPy integer array."""
+        k = self.sc["seed"] % 3
+        if k == 1:
+            return list(cc)
+        if k == 2:
+            return np.array(cc, dtype=np.int64)
+        return cc
+
     def operation(self, path):
         """Runs the scenario's operation against the dataset at `path`.
         Returns a description of what a correct completion means."""
@@ -237,7 +248,7 @@ class Scenario:
         if op == "store_chunk":
             if self.new_cc is None:
                 return None
-            pio.write_chunk(self.new_arr.copy(), "s0", self.new_cc)
+            pio.write_chunk(self.new_arr.copy(), "s0", self.rep(self.new_cc))
             return ("stored", [("s0", self.new_cc, self.new_arr)])
         if op == "store_file_no_overwrite":
             # a second run of a command that writes the info (or another
@@ -257,11 +268,11 @@ class Scenario:
             arr = content(sc, cc, 555)
             self.touched = (key, cc)
             if op == "overwrite_chunk":
-                pio.write_chunk(arr, key, cc)
+                pio.write_chunk(arr, key, self.rep(cc))
                 return ("overwritten", (key, cc, arr))
             enc = pio._encoders[key]
             # must raise DataAccessError (with or without an injected fault)
-            pio.accessor.store_chunk(enc.encode(arr), key, cc,
+            pio.accessor.store_chunk(enc.encode(arr), key, self.rep(cc),
                                      mime_type=enc.mime_type,
                                      overwrite=False)
             self.ctx.fail("store_chunk(overwrite=False) replaced an existing "
@@ -279,7 +290,7 @@ class Scenario:
             if not keys:
                 return None
             key, cc = keys[sc["target"] % len(keys)]
-            got = pio.read_chunk(key, cc)
+            got = pio.read_chunk(key, self.rep(cc))
             return ("fetched", (key, cc, got))
         if op == "fetch_file":
             return ("fetched_file", pio.accessor.fetch_file("info"))
@@ -300,7 +311,7 @@ class Scenario:
                 arr = content(sc, cc, 1000 + i)
                 new.append(("s1", cc, arr))
                 try:
-                    pio.write_chunk(arr, "s1", cc)
+                    pio.write_chunk(arr, "s1", self.rep(cc))
                 except (DataAccessError_(), OSError):
                     self.failed.append(("s1", cc, arr))
                     continue
@@ -315,7 +326,7 @@ class Scenario:
             self.accepted = []
             for i, cc in enumerate(order):
                 arr = content(sc, cc, 1000 + i)
-                pio.write_chunk(arr, "s1", cc)
+                pio.write_chunk(arr, "s1", self.rep(cc))
                 new.append(("s1", cc, arr))
                 self.accepted.append(("s1", cc, arr))
             pio.accessor.close()
